@@ -16,6 +16,14 @@ CUSTOM = [
     ["custom", ["\U0001f7e6", "\U0001f7e5", "\U0001f534", "\U0001f535"]],     # 1 code point each, astral plane
     ["customlist", ["a", "b", "c", "d", "e", "f"]],                          # passed as a Python list
 ]
+# legal custom tuples whose segments have UNEQUAL widths: decoding is not promised for them (not style_ok), but every
+# line still is "segments along the ancestor flags + own segment + rendering" (general prefix oracle)
+RAGGED = [
+    ["custom", [" ", "| ", "`-", "+--"]],                                      # 4-tuple, non-last connector wider
+    ["custom", ["  ", "| ", "`-", "+-", "`-+ ", "+-+ "]],                      # 6-tuple, compact connectors wider
+    ["custom", ["", "", "L ", "M ", "L+", "M+"]],                              # zero-width ancestor segments
+    ["customlist", ["\u3000\u3000", "\u2503", "\u2517", "\u2523\u2501", "\u2517\u2533\u27a4", "\u2523"]],
+]
 MALFORMED = [
     ["custom", []], ["custom", ["a", "b", "c"]], ["custom", ["a", "b", "c", "d", "e"]],
     ["custom", ["a", "b", "c", "d", "e", "f", "g"]], ["name", "nope"], ["name", "List"],
@@ -28,6 +36,97 @@ UNIV = ["s:a", "s: b", "s:\u2502 c", "s:\u251c\u2500\u2500 d", "i:7", "s:e e", "
 REPR_MODES = ["fmt", "call", "default"]
 TITLE_TEXT = "My \u2514 title"
 JOINS = ["\n", ", ", "", "\u2502\n"]
+
+
+# mutation histories applied before formatting: [op, args...]; node arguments are pre-order indices taken modulo the
+# number of nodes at that moment; an operation the library refuses is skipped (the history is replayed deterministically)
+OPS = ["remove", "remove_keep", "remove_children", "move", "move_top", "clear_readd", "sort", "filter", "add_leaf"]
+
+
+def apply_ops(tree, ops, U, typed):
+    def pick(k):
+        ns = B.all_nodes(tree._root)
+        return ns[k % len(ns)] if ns else None
+
+    fresh = [0]
+
+    def add(parent, lbl):
+        kw = {"data_id": f"h{fresh[0]}"}
+        fresh[0] += 1
+        if typed:
+            kw["kind"] = "k%d" % (fresh[0] % 2)
+        return parent.add(U.objs[lbl % len(U.objs)], **kw)
+
+    applied = 0
+    for op in ops:
+        try:
+            name = op[0]
+            n = pick(op[1]) if len(op) > 1 and name not in ("clear_readd", "filter") else None
+            if name == "remove" and n is not None:
+                n.remove()
+            elif name == "remove_keep" and n is not None:
+                n.remove(keep_children=True)
+            elif name == "remove_children" and n is not None:
+                n.remove_children()
+            elif name == "move" and n is not None:
+                t = pick(op[2])
+                if t is not n:
+                    n.move_to(t, before=(True if op[3] else None))
+            elif name == "move_top" and n is not None:
+                n.move_to(tree, before=(True if op[2] else None))
+            elif name == "clear_readd":
+                tree.clear()
+                a = add(tree, op[1])
+                for k in range(op[2]):
+                    a = add(a if k % 2 == 0 else a.parent or tree, op[1] + k + 1)
+            elif name == "sort":
+                if n is None:
+                    continue
+                key = (lambda x: x.data_id) if op[4] else (lambda x: str(x.data))
+                if op[1] % 3 == 0:
+                    tree.sort(key=key, reverse=bool(op[2]), deep=bool(op[3]))
+                else:
+                    n.sort_children(key=key, reverse=bool(op[2]), deep=bool(op[3]))
+            elif name == "filter":
+                m, r = op[1], op[2]
+                ids = {id(x): k for k, x in enumerate(B.all_nodes(tree._root))}
+                tree.filter(predicate=lambda x: ids.get(id(x), 0) % m != r)
+            elif name == "add_leaf" and n is not None:
+                add(n, op[2])
+            else:
+                continue
+            applied += 1
+        except Exception:  # noqa: BLE001  refused operation: skipped
+            pass
+    return applied
+
+
+def random_ops(rng, k):
+    ops = []
+    for _ in range(k):
+        name = rng.choice(OPS)
+        a, b = rng.randrange(1000), rng.randrange(1000)
+        if name in ("remove", "remove_keep", "remove_children"):
+            ops.append([name, a])
+        elif name == "move":
+            ops.append([name, a, b, rng.randrange(2)])
+        elif name == "move_top":
+            ops.append([name, a, rng.randrange(2)])
+        elif name == "clear_readd":
+            ops.append([name, a % 14, rng.randrange(4)])
+        elif name == "sort":
+            ops.append([name, a, rng.randrange(2), rng.randrange(2), rng.randrange(2)])
+        elif name == "filter":
+            m = rng.randint(2, 4)
+            ops.append([name, m, rng.randrange(m)])
+        else:
+            ops.append([name, a, b % 14])
+    return ops
+
+
+def ptr_depth(root):
+    ch = root._children or []
+    return 0 if not ch else 1 + max(ptr_depth(c) for c in ch)
 
 
 def style_arg(st):
@@ -144,9 +243,11 @@ class Prop:
     run_fn = "run16"
     shard = 8
     rule = ("every ordered forest shape with <= N nodes (quick N=4, thorough N=5) with every style of the table, the default, '', 'list', 4 custom "
-            "4-/6-tuples incl. astral-plane code points and 6 malformed styles; every (N+1)-node shape with a rotating third of the styles; "
-            "plus seeded random deep/wide trees of 6..24 nodes (quick 40, thorough 300); every 5th case gives all nodes ONE data object "
-            "(siblings equal but not identical); per (tree, style): Tree.format_iter "
+            "4-/6-tuples incl. astral-plane code points and 6 malformed styles; every (N+1)-node shape with a rotating quarter (quick) / third (thorough) of the styles; "
+            "plus seeded random deep/wide trees of 6..24 nodes (quick 30, thorough 300); every 5th case gives all nodes ONE data object "
+            "(siblings equal but not identical); 22 fixed + 24 (quick) / 200 (thorough) random MUTATION HISTORIES (remove, remove(keep_children), "
+            "remove_children, move_to, clear + re-add, sort, filter, add) applied before formatting with compact styles, custom 6-tuples and "
+            "ragged tuples; 4 custom tuples with UNEQUAL segment widths everywhere (exact-prefix oracle, no decoding); per (tree, style): Tree.format_iter "
             "for title in {default, False, True, text, ''}, Node.format_iter for EVERY node as start with add_self on/off, "
             "format(join=j) for the tree and every node; repr as format string, callable or the class default; plain and typed trees; "
             "data strings that themselves look like connectors.  distinct = distinct (shape, style set, repr mode, typed); "
@@ -178,7 +279,7 @@ class Prop:
     )
 
     # ----- generation
-    def _desc(self, shape, styles, i, typed=False):
+    def _desc(self, shape, styles, i, typed=False, ops=None):
         same = (i % 5 == 2)     # all nodes carry the same data object: siblings are == but not identical
         nodes = B.shape_to_nodes(shape, lambda k, d, s: ((i if same else k * 5 + i) % len(UNIV), ("k%d" % (k % 2)) if typed else None, f"id{k}"))
         n = B.nodes_size(nodes)
@@ -186,12 +287,13 @@ class Prop:
         # (the deepest node is added in run()); Node.format(join=) on the first and last of them
         starts = None if n <= 6 else sorted({0, n // 6, n // 3, n // 2, 2 * n // 3, 5 * n // 6, n - 1})
         return dict(typed=typed, univ=UNIV, nodes=nodes, name="T%d" % (i % 3), styles=styles,
-                    repr=REPR_MODES[i % 3], title=TITLE_TEXT, join=JOINS[i % len(JOINS)], starts=starts)
+                    repr=REPR_MODES[i % 3], title=TITLE_TEXT, join=JOINS[i % len(JOINS)], starts=starts,
+                    **({"ops": ops} if ops else {}))
 
     def descs(self, tier, rng):
         yield from CORPUS
         table = [["name", s] for s in STYLE_NAMES]
-        everything = SPECIAL + table + CUSTOM + MALFORMED
+        everything = SPECIAL + table + CUSTOM + RAGGED + MALFORMED
         nfull = 4 if tier == "quick" else 5
         i = 0
         for n in range(0, nfull + 1):
@@ -202,10 +304,24 @@ class Prop:
                 i += 2
         # one size further: every shape with a rotating third of the styles
         for j, shape in enumerate(H.forests(nfull + 1)):
-            sub = [everything[(j + 3 * k) % len(everything)] for k in range(len(everything) // 3 + 1)]
+            step = 4 if tier == "quick" else 3
+            sub = [everything[(j + step * k) % len(everything)] for k in range(len(everything) // step + 1)]
             yield self._desc(shape, sub, i, typed=(i % 7 == 3))
             i += 1
-        nrand = 40 if tier == "quick" else 300
+        # trees reached through mutation histories (emptied child lists, re-parented nodes, re-filled trees ...),
+        # formatted with the compact styles, custom 6-tuples (uniform and ragged) and a few 4-segment styles
+        hist_styles = ([["name", n] for n in STYLE_NAMES if n.endswith("c")] + [CUSTOM[1], CUSTOM[3], RAGGED[1], RAGGED[2]]
+                       + [["default"], ["name", "ascii22"], ["name", "list"]])
+        for j, (shape, ops) in enumerate(HIST_SEEDS):
+            yield self._desc(shape, hist_styles, 3 * j, typed=(j % 5 == 4), ops=ops)
+            i += 1
+        for j in range(24 if tier == "quick" else 200):
+            shape = H.random_shape(rng, rng.randint(3, 10), deep=rng.choice([0.3, 0.6, 0.9]))
+            ops = random_ops(rng, rng.randint(1, 5))
+            sub = rng.sample(hist_styles[:8], 4) + rng.sample(hist_styles[8:], 1)
+            yield self._desc(shape, sub, rng.randrange(1000), typed=rng.random() < 0.2, ops=ops)
+            i += 1
+        nrand = 30 if tier == "quick" else 300
         for _ in range(nrand):
             n = rng.randint(6, 24)
             shape = H.random_shape(rng, n, deep=rng.choice([0.3, 0.6, 0.9]))
@@ -214,6 +330,9 @@ class Prop:
             i += 1
 
     def shrink_candidates(self, desc):
+        ops = desc.get("ops") or []
+        for k in range(len(ops)):
+            yield dict(desc, ops=ops[:k] + ops[k + 1:])
         if len(desc["styles"]) > 1:
             for st in desc["styles"]:
                 yield dict(desc, styles=[st])
@@ -226,6 +345,7 @@ class Prop:
         U = B.make_universe(desc["univ"])
         tree = (H.TypedTree if typed else H.Tree)(desc["name"])
         B.add_nodes(tree._root, desc["nodes"], U, typed)
+        n_applied = apply_ops(tree, desc.get("ops") or [], U, typed)
         nodes = B.all_nodes(tree._root)
         mode = desc["repr"]
         if mode == "fmt":
@@ -286,16 +406,18 @@ class Prop:
         coq = (f"(mk16 {H.coq_forest(tree._root, U)} {rends} {H.coq_text(cls)} {H.coq_text(desc['name'])} "
                f"{H.coq_list(coq_style(s) for s in desc['styles'])} {H.coq_text(ttext)} {H.coq_text(join)} "
                f"{H.coq_list(str(H.nid(n)) for n in snodes)} {H.coq_list(str(H.nid(n)) for n in jnodes)} {H.coq_bool(full)})")
-        depth = B.nodes_depth(desc["nodes"])
+        depth = ptr_depth(tree._root)
         max_sibs = max([len(p._children or []) for p in [tree._root] + nodes])
         return Case(desc=desc, coq_input=coq, impl_obs=obs, oracle_fail=fail,
                     nontrivial=(depth >= 2 or max_sibs >= 2),
-                    key=H.digest([B_shape(desc["nodes"]), desc["styles"], desc["repr"], typed]),
-                    stats=dict(nodes=len(nodes), depth=depth, max_sibs=max_sibs, styles=len(desc["styles"]), repr=mode, typed=typed))
+                    key=H.digest([B_shape(desc["nodes"]), desc.get("ops"), desc["styles"], desc["repr"], typed]),
+                    stats=dict(nodes=len(nodes), depth=depth, max_sibs=max_sibs, styles=len(desc["styles"]), repr=mode, typed=typed,
+                               ops=len(desc.get("ops") or []), ops_applied=n_applied))
 
     # ----- the property statement, executed directly on the emitted lines and the pointer structure
     def oracle(self, tree, nodes, jnodes, rend, st, o, titles, join, typed):
         segs = segments(st)
+        self._custom = st[0] in ("custom", "customlist")
         tr, nd, tj, nj, sr = o
         cls = "TypedTree" if typed else "Tree"
         trepr = f"{cls}<'{tree.name}'>"
@@ -390,8 +512,33 @@ class Prop:
         s = list(segs)
         if len(s) == 4:
             s = s + [s[2], s[3]]
+        # general prefix oracle, for ANY 4-/6-tuple: prefix = the style's ancestor segment for every ancestor inside the
+        # printed branch (top-down, by its is-last flag) followed by the own segment (is-last, has-children), by pointers
+        def is_last(x):
+            return x is x._parent._children[-1]
+
+        def want(n, top):
+            chain, a = [], n
+            while not any(a is r for r in roots):
+                a = a._parent
+                chain.append(a)
+            chain.reverse()                       # ancestors inside the branch, branch root first
+            own = (s[4] if is_last(n) else s[5]) if n._children else (s[2] if is_last(n) else s[3])
+            if not top:
+                if not chain:
+                    return ""
+                chain = chain[1:]
+            return "".join(s[0] if is_last(a) else s[1] for a in chain) + own
+
+        for n, p in zip(bnodes, prefixes):
+            ok = [want(n, t) for t in ((True, False) if base is None else (bool(base),))]
+            if p not in ok:
+                return (f"{what}: prefix: node {H.nid(n)} is printed with prefix {p!r}, the segments along its ancestors' "
+                        f"last-flags plus its own segment give {ok[0]!r}")
         wa, ws = len(s[0]), len(s[2])
         if not (wa > 0 and ws > 0 and len(s[1]) == wa and all(len(x) == ws for x in s[2:])):
+            if self._custom:
+                return None      # a custom tuple without common widths: exact prefixes checked, decoding is not promised
             return f"{what}: style segments have no common widths: {[len(x) for x in s]} - depth is not decodable"
         # decoding 1: depth from the prefix length alone
         depths = []
@@ -441,6 +588,21 @@ class Prop:
 def B_shape(nodes):
     return [B_shape(n[3]) for n in nodes]
 
+
+# deterministic histories: every way a child list can become empty / be re-filled, nodes re-parented, order changed
+_L1 = (((),),)                    # P(c)
+_L2 = ((((),), ()), ())           # A(a1(a11), a2), B   (the demo of seeded/C16-4)
+_L3 = (((), ()), ())              # A(a1, a2), B
+HIST_SEEDS = [
+    (_L1, [["remove_keep", 1]]), (_L2, [["remove_keep", 2]]), (_L1, [["remove", 1]]), (_L2, [["remove", 2]]),
+    (_L1, [["remove_children", 0]]), (_L2, [["remove_children", 1]]),
+    (_L1, [["move_top", 1, 0]]), (_L2, [["move", 2, 4, 0]]), (_L2, [["move", 2, 0, 1]]), (_L2, [["move_top", 2, 1]]),
+    (_L1, [["filter", 2, 1]]), (_L2, [["filter", 5, 2]]),
+    (_L3, [["remove_keep", 1], ["remove_keep", 1]]), (_L3, [["remove", 2], ["remove", 1]]),
+    (_L2, [["clear_readd", 3, 3]]), (_L2, [["sort", 0, 1, 1, 0]]), (_L2, [["sort", 1, 1, 0, 1]]),
+    (_L1, [["remove_keep", 1], ["add_leaf", 0, 5]]), (_L2, [["remove_keep", 2], ["add_leaf", 1, 7], ["remove", 2]]),
+    (_L2, [["remove_keep", 1]]), (_L2, [["remove_keep", 0]]), (_L2, [["move", 1, 4, 0], ["remove_keep", 2]]),
+]
 
 CORPUS = [
     # D35: list style with a title rendered the system root as a line
